@@ -31,16 +31,17 @@ Section EventProofs.
 Variable HS : Type.
 Variable handle : HS -> msg -> HS * verdict.
 Variable rl : role.
+Variable pol : policy.
 Variable budget : nat -> nat.
 Variable short : nat -> bool.
 
-Notation feedx := (feedx HS handle rl).
+Notation feedx := (feedx HS handle rl pol).
 Notation papp := (papp HS).
-Notation drain := (drain HS handle rl budget short).
-Notation runE := (runE HS handle rl budget short).
+Notation drain := (drain HS handle rl pol budget short).
+Notation runE := (runE HS handle rl pol budget short).
 Notation mst := (mst HS).
-Notation A := (A HS handle rl).
-Notation good := (good HS handle rl).
+Notation A := (A HS handle rl pol).
+Notation good := (good HS handle rl pol).
 
 Definition steps (s : mst) (a : list N) (s' : mst) (es : list effect) : Prop :=
   good s' /\ forall y, A s (a ++ y) = papp es (A s' y).
@@ -56,12 +57,12 @@ Qed.
 Lemma drain_steps s a : good s ->
   exists s1 es, drain (drain_fuel a) s a = MRet s1 [] es /\ steps s a s1 es.
 Proof.
-  intros G. destruct (drain_total HS handle rl budget short (drain_fuel a) s a G) as (s1 & es & D); [unfold drain_fuel; lia|].
+  intros G. destruct (drain_total HS handle rl pol budget short (drain_fuel a) s a G) as (s1 & es & D); [unfold drain_fuel; lia|].
   exists s1, es. split; [exact D|].
-  destruct (drain_refines HS handle rl budget short _ _ _ _ _ _ G D) as [G1 (c & rest & Q & CL & R)].
+  destruct (drain_refines HS handle rl pol budget short _ _ _ _ _ _ G D) as [G1 (c & rest & Q & CL & R)].
   split; [exact G1|]. intros y. rewrite Q, <- app_assoc, R. f_equal.
   destruct CL as [CL|CL].
-  - apply (A_closed HS handle rl s1 _ _ CL G1).
+  - apply (A_closed HS handle rl pol s1 _ _ CL G1).
   - subst rest. reflexivity.
 Qed.
 
@@ -131,9 +132,9 @@ Qed.
 Theorem machine_events : forall (h : HS) (pre : list N) (evs : list event),
   length pre < bufsz ->
   exists s' sock' es hd md bd ed consumed,
-    run_events HS handle rl budget short h pre evs = MRet s' sock' es /\
+    run_events HS handle rl pol budget short h pre evs = MRet s' sock' es /\
     ebytes evs = consumed ++ sock' /\
-    decode HS handle rl h (pre ++ consumed) = PRes hd md bd ed /\
+    decode HS handle rl pol h (pre ++ consumed) = PRes hd md bd ed /\
     (epaused false evs = false -> sock' = []) /\
     (if eeof evs
      then sock' = [] /\ m_mode s' = RClosed /\
@@ -141,11 +142,11 @@ Theorem machine_events : forall (h : HS) (pre : list N) (evs : list event),
      else m_h s' = hd /\ m_mode s' = md /\ m_buf s' = bd /\ es = ed).
 Proof.
   intros h pre evs L.
-  destruct (handover_dispatches_complete HS handle rl budget short h pre L) as (s0 & es0 & HO & D0 & G0).
+  destruct (handover_dispatches_complete HS handle rl pol budget short h pre L) as (s0 & es0 & HO & D0 & G0).
   destruct (runE_spec evs s0 [] false G0 ltac:(reflexivity)) as (s' & sock' & es & s1 & e1 & c & RU & [G1 ST] & EQ & FIN).
   cbn [app] in EQ.
-  assert (DEC : decode HS handle rl h (pre ++ c) = PRes (m_h s1) (m_mode s1) (m_buf s1) (es0 ++ e1)).
-  { rewrite decode_feedx in *. rewrite (feedx_app' HS handle rl h RIdle pre c), D0.
+  assert (DEC : decode HS handle rl pol h (pre ++ c) = PRes (m_h s1) (m_mode s1) (m_buf s1) (es0 ++ e1)).
+  { rewrite decode_feedx in *. rewrite (feedx_app' HS handle rl pol h RIdle pre c), D0.
     unfold ProofsB.pbind. pose proof (ST []) as S0. unfold ProofsD.A in S0. rewrite !app_nil_r in S0.
     rewrite S0. destruct G1 as [G1 _]. rewrite G1. unfold ProofsB.papp. rewrite app_nil_r. reflexivity. }
   exists s', sock', (es0 ++ es), (m_h s1), (m_mode s1), (m_buf s1), (es0 ++ e1), c.
@@ -182,20 +183,20 @@ Theorem no_fatal_real_decode : forall (c : cfg) (h0 : hst) (s : list N) h' m' b'
   decode_real c h0 s = PRes h' m' b' es -> ~ In EFatal es.
 Proof.
   intros c h0 s h' m' b' es H. unfold decode_real in H.
-  eapply (no_fatal_from_input hst (hreal c) (c_role c) (hreal_never_fatal c)); eauto.
+  eapply (no_fatal_from_input hst (hreal c) (c_role c) (c_pol c) (hreal_never_fatal c)); eauto.
 Qed.
 
 Theorem no_fatal_real_machine : forall (c : cfg) (budget : nat -> nat) (short : nat -> bool) (h0 : hst)
   (pre : list N) (evs : list event),
   length pre < bufsz ->
   exists s' sock' es,
-    run_events hst (hreal c) (c_role c) budget short h0 pre evs = MRet s' sock' es /\ ~ In EFatal es.
+    run_events hst (hreal c) (c_role c) (c_pol c) budget short h0 pre evs = MRet s' sock' es /\ ~ In EFatal es.
 Proof.
   intros c budget short h0 pre evs L.
-  destruct (machine_events hst (hreal c) (c_role c) budget short h0 pre evs L)
+  destruct (machine_events hst (hreal c) (c_role c) (c_pol c) budget short h0 pre evs L)
     as (s' & sock' & es & hd & md & bd & ed & cons & RU & _ & DEC & _ & FIN).
   exists s', sock', es. split; [exact RU|].
-  pose proof (no_fatal_from_input hst (hreal c) (c_role c) (hreal_never_fatal c) _ _ _ _ _ _ DEC) as NF.
+  pose proof (no_fatal_from_input hst (hreal c) (c_role c) (c_pol c) (hreal_never_fatal c) _ _ _ _ _ _ DEC) as NF.
   destruct (eeof evs).
   - destruct FIN as (_ & _ & ->). intros I. apply in_app_or in I. destruct I as [I|I]; [exact (NF I)|].
     destruct md; cbn in I; intuition discriminate.
